@@ -20,6 +20,7 @@
 
    The replay checks what every trace of the model satisfies:
    * the verdict of each handshake is [hs_accept] (model's connect guard);
+   * KEEPALIVEs are accepted anywhere after the OPEN exchange (only recorded);
    * every UPDATE is written with the AS width of the capability announced in
      the handshake of the connection it arrives on (C17_flush_uses_connection_capability);
    * every message is justified (Proofs/SessionP.v emitted_justified: a flush
@@ -148,15 +149,10 @@ Definition rstep (g : cfg) (r : rstate) (e : tev) : option rstate :=
             hsdone := hsdone r; kalast := kalast r;
             late := if closedret r then c :: late r else late r; conns := conns r; closedret := closedret r |}
   | TKeepalive c ph =>
-    (* no keepalive timer when the negotiated hold time is 0; otherwise ticks are
-       keepalive_period seconds apart, the first one a period after the handshake *)
-    match keepalive_period g ph, find (fun p => fst p =? c) (kalast r) with
-    | Some per, Some (_, t0) =>
-      if now r + slack <? t0 + per * 1000 then None
-      else Some {| sets := sets r; nret := nret r; accepted := accepted r; now := now r; bo := bo r; pend := pend r;
-                   hsdone := hsdone r; kalast := (c, now r) :: kalast r; late := late r; conns := conns r; closedret := closedret r |}
-    | _, _ => None
-    end
+    (* recorded only: no property of C16 / C17 restricts when a (well-formed)
+       KEEPALIVE may be written; the cadence of sendKeepalives (keepalive_period) is a
+       statistic of the harness, not a replay rule *)
+    Some r
   | THandshake c asn fb acc =>
     match find (fun p => fst p =? c) (accepted r) with
     | None => None
